@@ -45,6 +45,68 @@ def resolve(e: ast.AST, defs, depth=3) -> str:
     return ast.unparse(T().visit(copy.deepcopy(e)))
 
 
+def inline_broadcasts(repo, fn: ast.FunctionDef) -> ast.FunctionDef:
+    """A copy of `fn` in which every statement `self.H(...)`, H being a method of Server whose whole body is one `for seat in
+    Player:` loop that puts a parameter into the seat queues (optionally skipping one parameter seat), is replaced by that loop with
+    the arguments substituted.  The relay / disclosure rules then see the same shape whether or not the loop was extracted."""
+    import copy
+    srv = repo.cls('Server', 'C10')
+    helpers = {}
+    for name, h in srv.methods.items():
+        body = [b for b in h.body if not (isinstance(b, ast.Expr) and isinstance(b.value, ast.Constant))]
+        if len(body) == 1 and isinstance(body[0], ast.For) and ast.unparse(body[0].iter) == 'Player' and name not in ('deal',):
+            puts = [x for x in ast.walk(body[0]) if isinstance(x, ast.Call) and isinstance(x.func, ast.Attribute) and x.func.attr == 'put']
+            params = [a.arg for a in h.args.args][1:]
+            if puts and all(isinstance(x.args[0], ast.Name) and x.args[0].id in params for x in puts if x.args):
+                helpers[name] = (h, body[0], params)
+    if not helpers:
+        return fn
+    new = copy.deepcopy(fn)
+
+    class T(ast.NodeTransformer):
+        def visit_Expr(self, st):
+            c = st.value
+            if isinstance(c, ast.Call) and isinstance(c.func, ast.Attribute) and isinstance(c.func.value, ast.Name) and c.func.value.id == 'self' \
+                    and c.func.attr in helpers:
+                h, loop, params = helpers[c.func.attr]
+                defaults = dict(zip(reversed(params), reversed(h.args.defaults)))
+                bind = {}
+                for i, p_ in enumerate(params):
+                    if i < len(c.args):
+                        bind[p_] = c.args[i]
+                    else:
+                        kw = [k for k in c.keywords if k.arg == p_]
+                        bind[p_] = kw[0].value if kw else defaults.get(p_)
+                if any(v is None for v in bind.values()):
+                    return st
+                lp = copy.deepcopy(loop)
+
+                class S_(ast.NodeTransformer):
+                    def visit_Name(self, n):
+                        if n.id in bind and isinstance(n.ctx, ast.Load):
+                            return copy.deepcopy(bind[n.id])
+                        return n
+                lp = S_().visit(lp)
+                # `if seat is None: continue` (no seat skipped) can never fire: drop it
+                lp.body = [b for b in lp.body if not (isinstance(b, ast.If) and isinstance(b.test, ast.Compare) and len(b.test.comparators) == 1
+                                                      and isinstance(b.test.comparators[0], ast.Constant) and b.test.comparators[0].value is None
+                                                      and isinstance(b.test.ops[0], (ast.Is, ast.Eq)) and len(b.body) == 1 and isinstance(b.body[0], ast.Continue))]
+                ast.copy_location(lp, st)
+                for x in ast.walk(lp):
+                    if not hasattr(x, 'lineno'):
+                        continue
+                    x.lineno = st.lineno
+                return lp
+            return self.generic_visit(st)
+    new = T().visit(new)
+    ast.fix_missing_locations(new)
+    for node in ast.walk(new):
+        for ch in ast.iter_child_nodes(node):
+            ch._parent = node
+    new._parent = getattr(fn, '_parent', None)
+    return new
+
+
 def enclosing_loops(n):
     out = []
     p = parent(n)
@@ -102,6 +164,7 @@ def run(chk):
     n_relay = 0
     for meth in ('bidding_phase', 'playing_phase'):
         _, fn = repo.method('Server', meth, 'C10.R2')
+        fn = inline_broadcasts(repo, fn)
         q = f'Server.{meth}'
         defs = local_defs(fn)
         gets = {}
@@ -149,6 +212,7 @@ def run(chk):
 def _hand_flows(chk, repo, sm, srv):
     n_flows = 0
     for mname, fn in srv.methods.items():
+        fn = inline_broadcasts(repo, fn)
         q = f'Server.{mname}'
         defs = local_defs(fn)
         params = {a.arg for a in fn.args.args}
